@@ -19,7 +19,7 @@ ASSUMPTIONS = sched.ASSUMPTIONS + [
     'any subset of entries may be missing (failed, lost, newly added tasks)',
     'time.time() of this run returns instants later than every persisted one']
 OUTSIDE = sched.OUTSIDE + ['the byte-level persistence of environments (C14)']
-BOUNDS = {'quick': {'tasks': '2 (all 3 graphs, 1 worker; hard edge with 2 workers), 3-task chain / fan-in / hard-then-soft chain with 1 worker',
+BOUNDS = {'quick': {'tasks': '2 (all 3 graphs, 1 worker), 3-task chain / fan-in / hard-then-soft chain with 1 worker',
                     'initial environment': 'solver-chosen under the invariant', 'outcomes': KINDS,
                     'depth': 'every run, first K = 22+11N+6W steps'},
           'thorough': {'tasks': '<= 3', 'graphs': 'all 27 labelled graphs on 3 tasks (W=1), 2-task graphs W<=2',
@@ -155,7 +155,7 @@ def _job(n, hard, soft, w, tier, seed=0):
 
 
 def jobs(tier):
-    return sched.standard_jobs(tier, _job, light=True)
+    return sched.standard_jobs(tier, _job, light=('n2w2-h10-s_',))
 
 
 def replay(rp):
